@@ -76,7 +76,9 @@ CLAIMED = {
              "Admissibility, classification, CJ point and fastestDeflag/slowestDeton under artificially tight phase ranges are monitored "
              "on real matchings every run, incl. a bisection-located scan of the deflagration/hybrid transition vw = cs-(T-). Bracket search of "
              "findJouguetVelocity as a model (Model.Jouguet) with theorems (Props.C06J: the bracket handed to brentq always has a sign change, "
-             "secant only when all samples have one sign, termination) and exact correspondence with the real method on stub equations of state.",
+             "secant only when all samples have one sign, termination) and exact correspondence with the real method on stub equations of state; "
+             "fastestDeflag/slowestDeton as a model (Model.Window, Props.C06W: vmax <= vJ, a cut is where T-+ reaches the table end, exact flag "
+             "semantics, vJ <= slowestDeton <= 1) with exact correspondence on stub matchings.",
         note="truth of the EOS inequalities and monotonicity of T+-(vw) below fastestDeflag are physics of the sampled EOS (monitored, not proved).",
         technique="Lean 4 proof over regenerated model + translator validation + real-run monitor", ref="4/C06"),
     "C15": dict(
